@@ -720,7 +720,7 @@ def main():
         for op_, l in byop.items():
             pr = [c for c in l if c["prio"]]
             rest = [c for c in l if not c["prio"]]
-            quota = max(8, (2500 * len(l)) // tot)
+            quota = max(6, (1200 * len(l)) // tot)
             sweep += pr + rest[:1] + rng.sample(rest[1:], min(max(0, len(rest) - 1), quota))
     for k, c in enumerate(sweep):
         c["id"] = "B%d" % k
